@@ -73,7 +73,7 @@ REQUIRED = dict(
     monitors=[M_X_SUB, M_X_NODE, M_X_FMT, M_X_GRID, M_X_NAME, M_X_UNIT, M_C_NODE, M_C_FMT, M_C_GRID, M_C_NAME, M_K_NODE, M_K_FMT,
               M_K_GRID, M_K_NAME, M_H_ONCE, M_H_PATH, M_H_VAL, M_H_INTERP, M_HK_INTERP, M_CIA_FIRST],
     classes=['xsec:pickle', 'xsec:hdf5', 'xsec:exotransmit', 'unit:Pa', 'unit:bar', 'unit:mbar', 'unit:Ba',
-             'unit:cds-only', 'cia:pickle', 'cia:hitran', 'hitran:per-temperature-ranges', 'hitran:negative-floored', 'hitran:whole-block-negative-below-an-interpolated-temperature',
+             'unit:cds-only', 'cia:pickle', 'cia:hitran', 'hitran:per-temperature-ranges', 'hitran:negative-floored', 'hitran:whole-block-negative-below-an-interpolated-temperature', 'hitran:two-ranges-a-hair-apart',
              'hitran:ranges-share-a-wavenumber', 'query:work-array-refilled-in-place',
              'ktab:pickle', 'ktab:hdf5', 'name:isotopologue', 'name:suffix', 'query:node', 'query:interior',
              'query:outside', 'query:wngrid', 'interp:linear', 'interp:exp', 'hist:xsec', 'hist:cia', 'hist:ktab',
@@ -513,8 +513,8 @@ def _close(ctx, monitor, got, want, cornermax, exo=False, **w):
 
 
 # -------------------------------------------------------------- CIA formats
-def draw_cia(rng, negatives, whole_block=False):
-    blocks, exp = L.cia_physical_table(rng, interior_gap=whole_block)
+def draw_cia(rng, negatives, whole_block=False, near_ranges=False):
+    blocks, exp = L.cia_physical_table(rng, interior_gap=whole_block, near_ranges=near_ranges)
     neg = {}
     if whole_block:
         # a deliberate class: EVERY entry of one block is negative (the whole block is floored to zero), and the block
@@ -565,7 +565,7 @@ def _refloor(blocks, exp, neg):
                 row = g['rows'][t0] + (g['rows'][t1] - g['rows'][t0]) * (t - t0) / (t1 - t0)
             x[ti, col:col + n] = row
         col += n
-    return blocks, dict(exp, x=x)
+    return blocks, dict(exp, x=x[:, exp['order']])
 
 
 def ramp_columns(exp, t):
@@ -574,9 +574,9 @@ def ramp_columns(exp, t):
     temperature and that range's lowest: the necessary condition of C14/hitran-fill-range-grows."""
     T = exp['T']
     mask = np.zeros(len(exp['wn']), dtype=bool)
-    for c0, c1, omin, omax in exp['groups']:
+    for gi, (c0, c1, omin, omax) in enumerate(exp['groups']):
         if int(np.sum(T < omin)) >= 2 and T[0] < t < omin:
-            mask[c0:c1] = True
+            mask[exp['col_group'] == gi] = True
     return mask
 
 
@@ -613,9 +613,12 @@ def wl_cia(ctx, rng):
     try:
         negatives = bool(rng.random() < 0.35)
         whole_block = ctx.case['index'] % 4 == 2
-        blocks, exp, neg = draw_cia(rng, negatives, whole_block)
+        near = ctx.case['index'] % 4 == 1
+        blocks, exp, neg = draw_cia(rng, negatives, whole_block, near_ranges=near)
         if whole_block:
             ctx.observe('hitran:whole-block-negative-below-an-interpolated-temperature')
+        if near:
+            ctx.observe('hitran:two-ranges-a-hair-apart')
         if rng.random() < 0.5:
             order = rng.permutation(len(blocks))         # block order in the file is free
             remap = {int(o): n for n, o in enumerate(order)}
